@@ -251,12 +251,31 @@ def step (d : DState) (line : List String) : DState × String :=
                 if act == "pin" then apiPin w g
                 else if act == "unpin" then apiUnpin w g
                 else match a? with | some a => (nsGet w g a, 0) | none => (w, 0)
-              let (s1, n, fired) := gcRace s c (ft.fs.root, op)
+              let (s1, n, fired) := gcRace s c ([ft.fs.root], op)
               let r := match fired with
                 | none => "-"
                 | some code => if act == "get" then "ok" else toString code
               out d s1 s!"ok c={n} f={if fired.isSome then 1 else 0} r={r}"
         | _, _ => (d, "nofile")
+    | _, _, _ => bad
+  | ["gcr2", c, first, second] =>
+    match c.toNat?, specEntries first, specEntries second with
+    | some c, some _, some _ =>
+      let unstable : Bool := s.ls.db.gc.any (fun e => match fileOfRoot s e.1.addr with
+        | some fi => fi.enc || !complete s fi.fs
+        | none => true)
+      if unstable then (d, "unstable") else
+      match s.files.lookup first, s.files.lookup second with
+      | some f1, some f2 =>
+        if f1.enc || f2.enc then bad
+        else if !known s f1.fs || !complete s f1.fs then (d, "unstable")
+        else
+          let (s1, n, fired) := gcRace s c ([f1.fs.root, f2.fs.root], fun w => apiPin w f1.fs)
+          let r := match fired with
+            | none => "-"
+            | some code => toString code
+          out d s1 s!"ok c={n} f={if fired.isSome then 1 else 0} r={r}"
+      | _, _ => (d, "nofile")
     | _, _, _ => bad
   | opname :: spec :: rest =>
     match specEntries spec with
